@@ -4,36 +4,48 @@ Correspondence: real `Die` objects (generated descriptions: blockages, specialis
 regions, fixed rectangles through a Netlist; dyadic coordinates) are refined with
 `split_refinable_regions(r, n)` / `initial_grid(rows, cols)`; `split_rectangles` is
 also called directly on generated rectangle lists.  The state before the call is the
-model's input, the state after it is checked in Coq (vm_compute): exact list equality
-(order included) when phase 2 does not run, the verified checker `phase2_ok`
+model's input, the state after it is checked in Coq (vm_compute): the same rectangles as
+the model's phase-1 list, in any order, when phase 2 does not run (the property promises
+no order of the lists), the verified checker `phase2_ok`
 otherwise (which rectangle of maximum area the heap pops is not part of the
-property), plus `phase2_tight` (the loop stopped as early as it could).
+property).  Whether the loop stopped as early as it could (`phase2_tight`) is recorded in the
+evidence only: the property asks for AT LEAST n regions.
+Histories: sequences of operations on ONE Die object (splits with varying (r, n), initial_grid
+before / between / after splits, refused requests, floorplanning_rectangles() and the getters in
+between); after every step the object's lists are compared with the per-call model applied to the
+lists observed before the step (Refine/DieOps.v: trace_ok, C11_history_sound), so anything the
+object remembers between calls besides its lists shows as a disagreement.
 Direct oracle: Fractions only, independent of the model."""
 from fractions import Fraction as F
 
 from harness import core, fr
 from harness.core import gq, gz, gbool, glist
 
-HEADER = """From FrameModel Require Import Num.QcTac Geometry.Rect Cases.Cmp Refine.Phase1 Refine.Phase2 Refine.DieRefine Cases.CmpC11.
+HEADER = """From FrameModel Require Import Num.QcTac Geometry.Rect Cases.Cmp Refine.Phase1 Refine.Phase2 Refine.DieRefine Refine.DieOps Cases.CmpC11.
 Open Scope Qc_scope."""
 
 ASSUMPTIONS = [
     "the Die state before the call (bounding box, specialised, ground, blockage and fixed lists as built by the real Die constructor) "
     "is the model's input: how a die is decomposed is C01's subject",
     "which rectangle of maximum area heapq pops and the order of the returned list are not compared (verified checker phase2_ok); "
-    "when phase 2 does not run the lists are compared exactly, order included",
+    "when phase 2 does not run the lists are compared as multisets (perm_rects): the order of the lists is not part of the property; "
+    "grid cells and the lists returned by floorplanning_rectangles() likewise",
     "binary64: coordinates are dyadic so every halving is exact; the aspect-ratio quotient h/w (inverted with 1.0/ar below 1) is rounded "
     "by the code and exact in the model: a case in which, for some rectangle obtainable by halving, the rounded test `aspect_ratio > r` "
     "decides differently from the exact quotient (e.g. a 10 x 17 region with the limit 1.7, whose binary64 value is below 17/10; a "
     "71 x 50 region with 1.42, where even the orientation matters) is run but neither compared nor judged (counted in the evidence)",
     "initial_grid divides by the row/column count: compared exactly when the step is dyadic, within 16 roundings at the die's magnitude otherwise",
     "the model is written for the code as repaired by fixes/C11-phase2-aspect.diff",
+    "histories: the model of a call is a function of the object's five lists before the call and of the call's own arguments "
+    "(DieOps.step_ok); a history is cut before the first split whose rounded aspect-ratio test would decide differently from the "
+    "exact quotient (float-boundary, counted); a history whose grid cells are not binary fractions is compared step by step "
+    "(grid cells within 16 roundings) instead of with trace_ok as a whole",
 ]
 
 R_VALUES = [1.42, 1.5, 1.7, 2.0, 3.0, 10.0]
 R_EDGE = [1.415, 1.4150000000000003, 1.0, 1.4143, 64.0]
 GROUND = "_"
-TAGS = ["dsp", "bram", "lut"]
+TAGS = ["dsp", "bram", "lut", "dsp", "bram", "__", "_g", "G_", "ground", "null", "dsp1", "dsp1_0"]
 
 
 # ---------------------------------------------------------------- generators
@@ -82,6 +94,7 @@ def gen_layout(rng, maxk=4):
             continue
         placed.append((bx, rng.choice(["#", "#", "fixed", "tag", "tag", "tag"])))
     regions, fixed = [], []
+    rng.shuffle(placed)                      # the order in which the regions are listed is arbitrary
     for bx, kind in placed:
         if kind == "fixed":
             fixed.append(rect_dict(*bx))
@@ -91,23 +104,136 @@ def gen_layout(rng, maxk=4):
 
 
 def gen_r(rng):
-    return rng.choice(R_VALUES) if rng.random() < 0.93 else rng.choice(R_EDGE)
+    r = rng.choice(R_VALUES) if rng.random() < 0.93 else rng.choice(R_EDGE)
+    if float(r).is_integer() and rng.random() < 0.2:
+        return int(r)                        # the limit given as an int (2 instead of 2.0)
+    return r
+
+
+def rarg(r):
+    return r if isinstance(r, int) else float(r)
+
+
+def call_split(die, r, n, style):
+    """split_refinable_regions with positional / keyword arguments, n left to its default when it is 1"""
+    if style == "kw":
+        return die.split_refinable_regions(aspect_ratio=rarg(r), n=n)
+    if style == "default-n" and n == 1:
+        return die.split_refinable_regions(rarg(r))
+    return die.split_refinable_regions(rarg(r), n)
+
+
+def call_grid(die, nrows, ncols, style):
+    if style == "kw":
+        return die.initial_grid(ncols=ncols, nrows=nrows)
+    return die.initial_grid(nrows, ncols)
+
+
+def gen_style(rng):
+    return rng.choice(["pos", "pos", "pos", "kw", "default-n"])
 
 
 def gen_n(rng):
     x = rng.random()
     if x < 0.03:
         return rng.choice([0, -1, -7])
+    if x < 0.045:
+        return rng.choice([65, 100, 127, 128, 129])         # beyond the usual sizes
     if x < 0.35:
         return rng.randrange(1, 9)
     return rng.randrange(1, 65)
 
 
+def gen_op(rng, kind=None):
+    kind = kind or rng.choices(["split", "grid", "read", "badsplit"], [55, 20, 18, 7])[0]
+    if kind == "split":
+        return ["split", gen_r(rng), rng.choice([1, 1, 2, 3, 4, 5, 8, 9, 16, 17, 24, 32, 40])]
+    if kind == "badsplit":
+        return rng.choice([["split", 2.0, 0], ["split", 1.0, 4], ["split", 1.415, 2], ["split", 1.5, -3]])
+    if kind == "grid":
+        if rng.random() < 0.7:
+            return ["grid", rng.choice([1, 2, 4, 8]), rng.choice([1, 2, 4, 8])]
+        return ["grid", rng.choice([0, 1, 2, 3, 5, 6, 7]), rng.choice([-1, 1, 2, 3, 5, 6, 7])]
+    return ["read"]
+
+
+def gen_history(rng):
+    """a sequence of operations on ONE Die object"""
+    pat = rng.choice(["splits", "splits", "grid-first", "split1-grid-split", "split1-grid-split", "split-grid-refused",
+                      "grid-grid", "random", "random", "random"])
+    empty = pat != "splits" and (pat != "random" or rng.random() < 0.6)
+    if empty:
+        den = rng.choice([1, 1, 2, 4])
+        if pat == "split1-grid-split":
+            wn = rng.choice([1, 2, 3, 4, 5, 6, 8, 10, 12, 16])
+            hn = max(1, min(32, wn + rng.choice([-2, -1, 0, 0, 0, 1, 2, wn])))
+        else:
+            wn, hn = rng.randrange(1, 33), rng.randrange(1, 33)
+        W, H, regions, fixed = F(wn, den), F(hn, den), [], []
+    else:
+        W, H, regions, fixed = gen_layout(rng)
+    ops = []
+    if pat == "splits":
+        r = gen_r(rng)
+        n = rng.choice([1, 2, 3, 5, 8])
+        for _ in range(rng.randrange(2, 5)):
+            ops.append(["split", r, n])
+            r = rng.choice([r, r, gen_r(rng)])
+            n = rng.choice([n, n + 1, n - 1 if n > 1 else 1, 2 * n, rng.choice([1, 2, 3, 5, 8, 13, 21, 34])])
+    elif pat == "grid-first":
+        ops = [gen_op(rng, "grid")] + [gen_op(rng, "split") for _ in range(rng.randrange(1, 4))]
+    elif pat == "split1-grid-split":
+        asp = max(W / H, H / W)
+        ok = [r for r in R_VALUES if r >= asp] or [10.0]
+        r = rng.choice(ok)
+        r2 = rng.choice([r, r, r] + [x for x in R_VALUES if x >= r] + R_VALUES)
+        g = gen_op(rng, "grid")
+        ops = [["split", r, 1], g, ["split", r2, rng.choice([1, 1, max(1, g[1] * g[2]), 2, 9, 16])]]
+        if rng.random() < 0.3:
+            ops.append(gen_op(rng, "split"))
+    elif pat == "split-grid-refused":
+        ops = [["split", gen_r(rng), rng.choice([2, 3, 4, 8])], gen_op(rng, "grid"), gen_op(rng, "split")]
+    elif pat == "grid-grid":
+        ops = [gen_op(rng, "grid"), gen_op(rng, "grid"), gen_op(rng, "split")]
+    else:
+        ops = [gen_op(rng) for _ in range(rng.randrange(2, 7))]
+    # grids whose cells are binary fractions (halving them later stays exact); single grid calls cover the other shapes
+    for op in ops:
+        if op[0] == "grid":
+            for k, side in ((1, H), (2, W)):
+                if op[k] > 0 and not dyadic(side / op[k]):
+                    op[k] = rng.choice([m for m in range(1, 9) if dyadic(side / m)])
+    # reads and refused requests anywhere
+    out = []
+    for op in ops:
+        if rng.random() < 0.25:
+            out.append(["read"])
+        if rng.random() < 0.08:
+            out.append(gen_op(rng, "badsplit"))
+        out.append(op)
+    if rng.random() < 0.5:
+        out.append(["read"])
+    form = "text"
+    if not regions and rng.random() < 0.4:
+        form = rng.choice(["string", "dict"])
+    case = {"kind": "hist", "W": W, "H": H, "regions": regions, "fixed": fixed, "ops": out, "dieform": form,
+            "style": gen_style(rng)}
+    if rng.random() < 0.25:
+        # a second Die object alive in the same process, used in between: nothing of it may show in the first
+        case["noise"] = {"W": F(rng.randrange(1, 33)), "H": F(rng.randrange(1, 33)),
+                         "ops": [gen_op(rng, rng.choice(["split", "split", "grid"])) for _ in range(len(out))]}
+    return case
+
+
 def gen_case(rng):
     x = rng.random()
+    if x < 0.36:
+        return gen_history(rng)
+    x = (x - 0.36) / 0.64
     if x < 0.62:
         W, H, regions, fixed = gen_layout(rng)
-        return {"kind": "split", "W": W, "H": H, "regions": regions, "fixed": fixed, "r": gen_r(rng), "n": gen_n(rng)}
+        return {"kind": "split", "W": W, "H": H, "regions": regions, "fixed": fixed, "r": gen_r(rng), "n": gen_n(rng),
+                "style": gen_style(rng)}
     if x < 0.80:
         if rng.random() < 0.85:
             den = rng.choice([1, 1, 2, 4])
@@ -117,7 +243,10 @@ def gen_case(rng):
             W, H, regions, fixed = gen_layout(rng, maxk=2)
         nrows = rng.choice([0, -1, 9, 12]) if rng.random() < 0.06 else rng.randrange(1, 9)
         ncols = rng.choice([0, -2, 10]) if rng.random() < 0.06 else rng.randrange(1, 9)
-        return {"kind": "grid", "W": W, "H": H, "regions": regions, "fixed": fixed, "nrows": nrows, "ncols": ncols}
+        if rng.random() < 0.04:
+            nrows, ncols = rng.choice([(10, 10), (16, 16), (1, 100), (33, 2), (9, 7), (17, 15)])
+        return {"kind": "grid", "W": W, "H": H, "regions": regions, "fixed": fixed, "nrows": nrows, "ncols": ncols,
+                "style": gen_style(rng)}
     # direct call of split_rectangles on a list of rectangles with arbitrary attributes
     W, H, regions, fixed = gen_layout(rng, maxk=5)
     rects = []
@@ -214,17 +343,88 @@ def float_boundary(rects, r):
     return False
 
 
+def build_die(case):
+    from frame.die.die import Die
+    from frame.netlist.netlist import Netlist
+    net = Netlist(netlist_text(case)) if case["fixed"] else None
+    form = case.get("dieform", "text")
+    if form == "string" and not case["regions"]:
+        return Die(f"{fnum(case['W'])}x{fnum(case['H'])}", net)
+    if form == "dict":
+        tree = {"width": float(case["W"]), "height": float(case["H"])}
+        if case["regions"]:
+            tree["regions"] = [[float(d["cx"]), float(d["cy"]), float(d["w"]), float(d["h"]), d["region"]] for d in case["regions"]]
+        return Die(tree, net)
+    return Die(die_text(case), net)
+
+
+def run_history(case):
+    """every operation of case['ops'] on one Die object; the lists are read after every step"""
+    try:
+        die = build_die(case)
+    except AssertionError as e:
+        return {"status": "die-rejected", "why": str(e)[:200]}
+    state = snapshot(die)
+    obs = {"status": "hist", "start": state, "events": [], "cut": None}
+    other = None
+    if case.get("noise"):
+        from frame.die.die import Die
+        try:
+            other = Die(f"{fnum(case['noise']['W'])}x{fnum(case['noise']['H'])}")
+        except Exception:
+            other = None
+    for i, op in enumerate(case["ops"]):
+        if other is not None and i < len(case["noise"]["ops"]):
+            nop = case["noise"]["ops"][i]
+            try:
+                if nop[0] == "split":
+                    other.split_refinable_regions(rarg(nop[1]), nop[2])
+                elif nop[0] == "grid":
+                    other.initial_grid(nop[1], nop[2])
+            except Exception:
+                pass
+        ev = {"op": op, "before": state}
+        if op[0] == "split":
+            if float_boundary(state["spec"] + state["ground"], op[1]):
+                SKIPPED["float-boundary"] += 1
+                obs["cut"] = i
+                break
+            call = lambda: call_split(die, op[1], op[2], case.get("style"))
+        elif op[0] == "grid":
+            call = lambda: call_grid(die, op[1], op[2], case.get("style"))
+        else:
+            call = None
+        if call is not None:
+            try:
+                call()
+                ev["status"] = "ok"
+            except AssertionError:
+                ev["status"] = "assert"
+            except IndexError:
+                ev["status"] = "index"
+        else:
+            ev["status"] = "ok"
+        fp = die.floorplanning_rectangles()
+        ev["fp"] = [[fr.rect_obs(r) for r in fp[0]], [fr.rect_obs(r) for r in fp[1]]]
+        state = snapshot(die)
+        ev["after"] = state
+        obs["events"].append(ev)
+    return obs
+
+
 def run_impl_(case):
     from frame.geometry.geometry import Rectangle, split_rectangles
     Rectangle.undefine_epsilon()
     try:
+        if case["kind"] == "hist":
+            return run_history(case)
         if case["kind"] == "raw":
             if float_boundary(case["rects"], case["r"]):
                 SKIPPED["float-boundary"] += 1
                 return {"status": "boundary"}
             rects = [fr.mk_rect(d) for d in case["rects"]]
             try:
-                out = split_rectangles(rects, float(case["r"]), case["n"])
+                out = split_rectangles(rects, rarg(case["r"]), case["n"])
             except AssertionError:
                 return {"status": "assert"}
             except IndexError:
@@ -243,9 +443,9 @@ def run_impl_(case):
             return {"status": "boundary"}
         try:
             if case["kind"] == "split":
-                die.split_refinable_regions(float(case["r"]), case["n"])
+                call_split(die, case["r"], case["n"], case.get("style"))
             else:
-                die.initial_grid(case["nrows"], case["ncols"])
+                call_grid(die, case["nrows"], case["ncols"], case.get("style"))
             status = "ok"
         except AssertionError:
             status = "assert"
@@ -273,29 +473,78 @@ def dyadic(q):
     return d & (d - 1) == 0
 
 
+def gevent_parts(ev):
+    op, D2 = ev["op"], gdie(ev["after"])
+    out = "Returned" if ev["status"] == "ok" else "Raised"
+    if op[0] == "split":
+        return f"(OSplit {gq(op[1])} {gz(op[2])})", out, D2
+    if op[0] == "grid":
+        return f"(OGrid {gz(op[1])} {gz(op[2])})", out, D2
+    return "ORead", f"(Lists {grects(ev['fp'][0])} {grects(ev['fp'][1])})", D2
+
+
+def gevent(ev):
+    return "(" + ", ".join(gevent_parts(ev)) + ")"
+
+
+def grid_exact(case, op):
+    return op[1] > 0 and op[2] > 0 and dyadic(F(case["W"]) / op[2]) and dyadic(F(case["H"]) / op[1])
+
+
+def judged_events(case, obs):
+    """the events up to and including the first grid whose cells are not binary fractions: halving such cells is not
+    exact in binary64, so later steps are outside what exact arithmetic can judge (the generator avoids such grids)"""
+    evs = []
+    for ev in obs["events"]:
+        evs.append(ev)
+        if ev["op"][0] == "grid" and ev["status"] == "ok" and not grid_exact(case, ev["op"]):
+            break
+    return evs
+
+
+def hist_to_coq(case, obs):
+    evs = judged_events(case, obs)
+    D0 = gdie(obs["start"])
+    tr = glist([gevent(ev) for ev in evs])
+    # (floorplanning_rectangles() after every step is compared with the lists by the direct oracle; the read events carry it)
+    if all(grid_exact(case, ev["op"]) for ev in evs if ev["op"][0] == "grid" and ev["status"] == "ok"):
+        return f"history_ok {D0} {tr}"
+    # a grid whose cells are not binary fractions: step by step, the grid cells within 16 roundings
+    scale = gq(max(case["W"], case["H"]))
+    parts = [f"die_inv_b {D0}"]
+    for ev in evs:
+        op = ev["op"]
+        ex = gbool(grid_exact(case, op)) if op[0] == "grid" else "true"
+        o, out, D2 = gevent_parts(ev)
+        parts.append(f"step_agrees {ex} {scale} {gdie(ev['before'])} {o} {out} {D2}")
+    return " && ".join(parts)
+
+
 def to_coq(case, obs):
     st = obs["status"]
     if st in ("die-rejected", "boundary"):
         return "true"
     if st == "hang":
         return "false"
+    if st == "hist":
+        return hist_to_coq(case, obs)
     if case["kind"] == "raw":
         RS, r, n = grects(case["rects"]), gq(case["r"]), gz(case["n"])
         if st != "ok":
             return f"is_reject (split_rectangles_greedy {RS} {r} {n})"
         OUT = grects(obs["out"])
-        return f"split_rectangles_ok {RS} {r} {n} {OUT} && split_tight {RS} {r} {n} {OUT}"
+        return f"split_rectangles_ok {RS} {r} {n} {OUT}"
     D, D2 = gdie(obs["before"]), gdie(obs["after"])
     fp = f"fp_eqb {D2} {grects(obs['fp'][0])} {grects(obs['fp'][1])}"
     if case["kind"] == "split":
         r, n = gq(case["r"]), gz(case["n"])
         if st != "ok":
             return f"is_reject (die_split_greedy {D} {r} {n}) && die_eqb {D} {D2} && {fp}"
-        return f"die_split_ok {D} {r} {n} {D2} && die_split_tight {D} {r} {n} {D2} && {fp}"
+        return f"die_split_ok {D} {r} {n} {D2} && {fp}"
     nr, nc = gz(case["nrows"]), gz(case["ncols"])
     if st != "ok":
         return f"is_reject (initial_grid {D} {nr} {nc}) && die_eqb {D} {D2} && {fp}"
-    exact = dyadic(case["W"] / case["ncols"]) and dyadic(case["H"] / case["nrows"])
+    exact = dyadic(F(case["W"]) / case["ncols"]) and dyadic(F(case["H"]) / case["nrows"])
     scale = gq(max(case["W"], case["H"]))
     return f"grid_agrees {gbool(exact)} {scale} {D} {nr} {nc} {D2} && {fp}"
 
@@ -308,6 +557,11 @@ def aspect(d):
 
 def inside(a, b, tol=0):
     return a[0] >= b[0] - tol and a[1] >= b[1] - tol and a[2] <= b[2] + tol and a[3] <= b[3] + tol
+
+
+def bag(l):
+    """a list of regions as a multiset (the property promises no order)"""
+    return sorted((geom(d) for d in l), key=repr)
 
 
 def geom(d):
@@ -356,12 +610,38 @@ def admissible(r, n):
     return n >= 1 and float(r) > 1.415
 
 
+def oracle_history(case, obs):
+    for i, ev in enumerate(judged_events(case, obs)):
+        op = ev["op"]
+        if op[0] == "read":
+            b, a = ev["before"], ev["after"]
+            if b != a:
+                why = "reading the regions changed the die"
+            elif [bag(ev["fp"][0]), bag(ev["fp"][1])] != [bag(a["spec"] + a["ground"]), bag(a["fixed"])]:
+                why = "floorplanning_rectangles() is not (specialised + ground regions, fixed regions)"
+            else:
+                why = None
+        else:
+            sub = {"kind": op[0], "W": case["W"], "H": case["H"]}
+            if op[0] == "split":
+                sub.update(r=op[1], n=op[2])
+            else:
+                sub.update(nrows=op[1], ncols=op[2])
+            why = oracle(sub, {"status": ev["status"], "before": ev["before"], "after": ev["after"], "fp": ev["fp"]})
+        if why:
+            called = " -> ".join(f"{o[0]}({', '.join(str(v) for v in o[1:])})" for o in case["ops"][:i + 1])
+            return f"step {i + 1} of {called}: {why}"
+    return None
+
+
 def oracle(case, obs):
     st = obs["status"]
     if st in ("die-rejected", "boundary"):
         return None
     if st == "hang":
         return "the call did not return within 10 s"
+    if st == "hist":
+        return oracle_history(case, obs)
     if case["kind"] == "raw":
         rects = case["rects"]
         ok_in = all(core.frac(d["w"]) > 0 and core.frac(d["h"]) > 0 for d in rects)
@@ -380,8 +660,7 @@ def oracle(case, obs):
             return f"{what} changed"
     if geom(b["bbox"]) != geom(a["bbox"]):
         return "the die changed"
-    if [list(map(geom, obs["fp"][0])), list(map(geom, obs["fp"][1]))] != \
-            [list(map(geom, a["spec"] + a["ground"])), list(map(geom, a["fixed"]))]:
+    if [bag(obs["fp"][0]), bag(obs["fp"][1])] != [bag(a["spec"] + a["ground"]), bag(a["fixed"])]:
         return "floorplanning_rectangles() is not (specialised + ground regions, fixed regions)"
     before, after = b["spec"] + b["ground"], a["spec"] + a["ground"]
     if any(d["region"] == GROUND for d in a["spec"]) or any(d["region"] != GROUND for d in a["ground"]):
@@ -409,8 +688,8 @@ def oracle(case, obs):
     if len(after) != nr * nc:
         return f"{len(after)} regions in a {nr}x{nc} grid"
     die = box(b["bbox"])
-    exact = dyadic(case["W"] / nc) and dyadic(case["H"] / nr)
-    tol = F(0) if exact else max(case["W"], case["H"]) / 10 ** 9
+    exact = dyadic(F(case["W"]) / nc) and dyadic(F(case["H"]) / nr)
+    tol = F(0) if exact else F(max(case["W"], case["H"])) / 10 ** 9
     cells = [box(d) for d in after]
     for d, c in zip(after, cells):
         if d["region"] != GROUND or not inside(c, die, tol) or c[2] <= c[0] or c[3] <= c[1]:
@@ -426,6 +705,8 @@ def oracle(case, obs):
 
 
 def failure_key(case, why):
+    if case["kind"] == "hist":
+        return "C11/history"
     if case["kind"] == "grid":
         return "C11/initial_grid"
     if why and "aspect ratio" in why and float(case["r"]) < 2:
@@ -434,6 +715,32 @@ def failure_key(case, why):
 
 
 def shrink(case):
+    if case["kind"] == "hist":
+        ops = case["ops"]
+        for i in reversed(range(len(ops))):
+            yield dict(case, ops=ops[:i] + ops[i + 1:])
+        for key in ("regions", "fixed"):
+            for i in range(len(case[key])):
+                yield dict(case, **{key: case[key][:i] + case[key][i + 1:]})
+        for i, op in enumerate(ops):
+            if op[0] == "split" and op[2] > 1:
+                for m in sorted({1, op[2] // 2, op[2] - 1}):
+                    if 1 <= m < op[2]:
+                        yield dict(case, ops=ops[:i] + [[op[0], op[1], m]] + ops[i + 1:])
+            if op[0] == "grid":
+                for k in (1, 2):
+                    if op[k] > 1:
+                        new = list(op)
+                        new[k] -= 1
+                        yield dict(case, ops=ops[:i] + [new] + ops[i + 1:])
+        for key in ("W", "H"):
+            if not case["regions"] and not case["fixed"] and case[key] > 2 and case[key].denominator == 1:
+                yield dict(case, **{key: F(case[key] // 2)})
+        if case.get("dieform") != "text":
+            yield dict(case, dieform="text")
+        if case.get("noise"):
+            yield dict(case, noise=None)
+        return
     if case["kind"] in ("split", "raw"):
         n = case["n"]
         for m in sorted({1, 2, n // 2, n - 1}):
@@ -447,7 +754,7 @@ def shrink(case):
             if case[key] != 1 and not case["regions"] and not case["fixed"]:
                 yield dict(case, **{key: F(1)})
                 if case[key] > 2 and case[key].denominator == 1:
-                    yield dict(case, **{key: case[key] // 2})
+                    yield dict(case, **{key: F(case[key] // 2)})
         if case["kind"] == "grid":
             for key in ("nrows", "ncols"):
                 if case[key] > 1:
@@ -462,23 +769,31 @@ def shrink(case):
 
 
 def dist_key(case):
+    if case["kind"] == "hist":
+        return "history/" + "-".join(op[0][0] for op in case["ops"])[:9]
     if case["kind"] == "grid":
         return "grid"
-    return f"{case['kind']}/r={case['r']}"
+    return f"{case['kind']}/r={float(case['r'])}"
 
 
 def nontrivial(case):
+    if case["kind"] == "hist":
+        return sum(1 for op in case["ops"] if op[0] != "read") >= 2
     if case["kind"] == "grid":
         return case["nrows"] * case["ncols"] > 1
     return case["n"] > 1
 
 
 def run(ctx, out, replay=None):
-    n = 800 if ctx.quick() else 8000
+    n = 700 if ctx.quick() else 6000
     out.rule = ("real Die objects from generated descriptions (0-4 disjoint lattice-aligned blockages / specialised regions / "
                 "fixed rectangles on small, elongated and large dyadic dies), limits 1.42 1.5 1.7 2 3 10 (+ edge values around the "
                 "assert), n in 1..64 (+ non-positive), grids 1..8 x 1..8 (+ refused shapes, non-empty dies), direct calls of "
-                "split_rectangles with arbitrary attributes; non-trivial = n > 1 or more than one grid cell; distinct by canonical hash")
+                "split_rectangles with arbitrary attributes; histories (about a third of the cases): 2-8 operations on ONE Die object "
+                "(splits with equal / tighter / looser limits and growing or smaller counts, initial_grid first / after split(r, 1) / "
+                "refused after a real split / twice, refused splits, floorplanning_rectangles() in between; die built from YAML text, a "
+                "dict or the '<W>x<H>' string), lists read and compared after every step; non-trivial = n > 1, more than one grid "
+                "cell, or at least two modifying calls; distinct by canonical hash")
     cases = []
     if replay and "case" in replay:
         cases.append(fr.unjson(replay["case"]))
@@ -486,7 +801,7 @@ def run(ctx, out, replay=None):
     while len(cases) < n:
         cases.append(gen_case(ctx.rng))
     fr.run_cases(ctx, out, cases, run_impl, to_coq, oracle, failure_key, HEADER,
-                 dist_key=dist_key, nontrivial=nontrivial, shard=70, shrink=shrink)
+                 dist_key=dist_key, nontrivial=nontrivial, shard=40, shrink=shrink)
     out.extra["skipped_float_boundary_cases"] = SKIPPED["float-boundary"]
     greedy_evidence(ctx, out, cases[:160 if ctx.quick() else 1500])
 
@@ -496,7 +811,7 @@ def greedy_evidence(ctx, out, cases):
     implementation's list is, up to order, the one the model's own algorithm computes."""
     exprs = []
     for case in cases:
-        if case["kind"] == "grid":
+        if case["kind"] in ("grid", "hist"):
             continue
         obs = run_impl(case)
         if obs["status"] != "ok":
@@ -507,10 +822,11 @@ def greedy_evidence(ctx, out, cases):
             RS = grects(obs["before"]["spec"] + obs["before"]["ground"])
             OUT = grects(obs["after"]["spec"] + obs["after"]["ground"])
         r, n = gq(case["r"]), gz(case["n"])
-        exprs += [f"phase2_ran {RS} {r} {n}", f"equals_greedy {RS} {r} {n} {OUT}"]
-    res = core.coq_eval_bools(ctx, HEADER, exprs, shard=80, tag="greedy")
-    ran = [i for i in range(0, len(res), 2) if res[i] is True]
-    out.extra["phase2_sample"] = {"cases": len(res) // 2, "phase2_ran": len(ran),
+        exprs += [f"phase2_ran {RS} {r} {n}", f"equals_greedy {RS} {r} {n} {OUT}", f"split_tight {RS} {r} {n} {OUT}"]
+    res = core.coq_eval_bools(ctx, HEADER, exprs, shard=90, tag="greedy")
+    ran = [i for i in range(0, len(res), 3) if res[i] is True]
+    out.extra["phase2_sample"] = {"cases": len(res) // 3, "phase2_ran": len(ran),
                                   "equal_to_model_greedy_when_ran": sum(1 for i in ran if res[i + 1] is True),
-                                  "equal_to_model_when_not_ran": sum(1 for i in range(0, len(res), 2)
+                                  "stopped_as_early_as_possible_when_ran": sum(1 for i in ran if res[i + 2] is True),
+                                  "equal_to_model_when_not_ran": sum(1 for i in range(0, len(res), 3)
                                                                      if res[i] is False and res[i + 1] is True)}
